@@ -55,7 +55,12 @@ const (
 type entStrategy struct {
 	typ   string
 	keyed bool // scalar fields are persisted under "<field>_k" while the symbols keep the plain names
+	// overrides: the strategy tells the context under which names its keyed fields are known to field checkers
+	overrides bool
 }
+
+// entOverrides maps the persisted keys of a keyed store to the names a field checker uses for them.
+var entOverrides = map[string]string{FName + "_k": FName, FAlias + "_k": FAlias, FNote + "_k": FNote, FRef + "_k": FRef}
 
 // PersistKey returns the bucket key a field is persisted under (and a FieldChecker is asked about).
 func PersistKey(keyed bool, field string) string {
@@ -78,6 +83,9 @@ func (s entStrategy) FillEntity(e *Ent, b *boltz.TypedBucket) {
 	e.Serial = b.GetInt64WithDefault(FSerial, 0)
 }
 func (s entStrategy) PersistEntity(e *Ent, ctx *boltz.PersistContext) {
+	if s.overrides {
+		ctx.WithFieldOverrides(entOverrides)
+	}
 	e.SetBaseValues(ctx)
 	ctx.SetString(s.k(FName), e.Name)
 	ctx.SetStringP(s.k(FAlias), e.Alias)
@@ -94,20 +102,28 @@ func (s entStrategy) PersistEntity(e *Ent, ctx *boltz.PersistContext) {
 }
 
 type kidStrategy struct {
-	parent *boltz.BaseStore[*Ent]
-	typ    string
+	parent   *boltz.BaseStore[*Ent]
+	typ      string
+	extraKey string
+	clash    bool
 }
+
+// kidOverrides is the child level's own override table (it concerns a field the checks never select)
+var kidOverrides = map[string]string{"extra_flag_k": "extraFlag"}
 
 func (s *kidStrategy) NewEntity() *Kid { return &Kid{Ent: Ent{Type: s.typ}} }
 func (s *kidStrategy) FillEntity(k *Kid, b *boltz.TypedBucket) {
 	_, err := s.parent.LoadEntity(b.Tx(), k.Id, &k.Ent)
 	b.SetError(err)
 	k.Type = s.typ
-	k.Extra = b.GetStringWithDefault(FExtra, "")
+	k.Extra = b.GetStringWithDefault(s.extraKey, "")
 }
 func (s *kidStrategy) PersistEntity(k *Kid, ctx *boltz.PersistContext) {
+	if s.clash {
+		ctx.WithFieldOverrides(kidOverrides)
+	}
 	s.parent.GetEntityStrategy().PersistEntity(&k.Ent, ctx.GetParentContext())
-	ctx.SetString(FExtra, k.Extra)
+	ctx.SetString(s.extraKey, k.Extra)
 	if k.LinkField != "" && ctx.Store.GetLinkCollection(k.LinkField) != nil {
 		ctx.SetLinkedIds(k.LinkField, k.LinkIDs) // a link field declared on the child store
 	}
@@ -149,6 +165,29 @@ type ChildCfg struct {
 	// UniqueExtra: the child store has an index of its own, a nullable unique index over its child-only field
 	// (at most one such child store per parent: the index bucket is keyed by the parent's entity type)
 	UniqueExtra bool `json:"uniqueExtra,omitempty"`
+	// Clash (parent store Keyed): the child keeps its own field under the bucket key the parent uses for its note
+	// ("note_k", each in its own bucket), and both levels declare field overrides: the parent exposes its keyed fields
+	// to field checkers under their symbol names, the child declares an override of its own before it persists the
+	// parent part. A checker then names the parent's note "note" and the child's field "note_k".
+	Clash bool `json:"clash,omitempty"`
+}
+
+// ClashParent reports whether a child store of the given store is configured with Clash.
+func (c WorldCfg) ClashParent(store string) bool {
+	for _, cc := range c.Children {
+		if cc.Parent == store && cc.Clash {
+			return true
+		}
+	}
+	return false
+}
+
+// ExtraKey is the bucket key of the child-only field.
+func (c ChildCfg) ExtraKey() string {
+	if c.Clash {
+		return FNote + "_k"
+	}
+	return FExtra
 }
 
 // LinkCfg: many-to-many link collection between A.FieldA and B.FieldB.
@@ -212,7 +251,7 @@ func NewWorld(cfg WorldCfg) (*World, error) {
 	for _, sc := range cfg.Stores {
 		st := boltz.NewBaseStore(boltz.StoreDefinition[*Ent]{
 			EntityType:     sc.Name,
-			EntityStrategy: entStrategy{typ: sc.Name, keyed: sc.Keyed},
+			EntityStrategy: entStrategy{typ: sc.Name, keyed: sc.Keyed, overrides: sc.Keyed && cfg.ClashParent(sc.Name)},
 			// built by append on purpose: like a caller assembling the path, the slice may have spare capacity
 			BasePath:        append(make([]string, 0, len(cfg.Base())+3), cfg.Base()...),
 			EntityNotFoundF: notFoundF(sc.Name),
@@ -291,7 +330,7 @@ func NewWorld(cfg WorldCfg) (*World, error) {
 		parent := w.Stores[cc.Parent]
 		cc := cc
 		def := boltz.StoreDefinition[*Kid]{
-			EntityStrategy:  &kidStrategy{parent: parent, typ: cc.Parent},
+			EntityStrategy:  &kidStrategy{parent: parent, typ: cc.Parent, extraKey: cc.ExtraKey(), clash: cc.Clash},
 			BasePath:        append(childPrefix, "ext_"+cc.Name),
 			Parent:          parent,
 			EntityNotFoundF: notFoundF(cc.Parent),
@@ -308,7 +347,7 @@ func NewWorld(cfg WorldCfg) (*World, error) {
 		}
 		ks.InitImpl(ks)
 		parent.GrantSymbols(ks)
-		extraSym := ks.AddSymbol(FExtra, ast.NodeTypeString)
+		extraSym := ks.AddSymbolWithKey(FExtra, ast.NodeTypeString, cc.ExtraKey())
 		if cc.UniqueExtra {
 			w.Unique[cc.Name+"."+FExtra] = ks.AddNullableUniqueIndex(extraSym)
 		}
